@@ -389,6 +389,7 @@ fn exec_batch(w: &mut World, batch: &[Op], salt: u64, ctx: &mut CaseCtx) -> Resu
                 let i = *doc as usize % DOCS.len();
                 let cur = w.s.last_publication(&uris[i]).cloned().unwrap_or_default();
                 let Some(word) = flagged_word(&w.docs[i].text, &cur) else { continue };
+                note_dictionary_change(w);
                 let user = matches!(op, Op::AddUser { .. });
                 if user {
                     // must-hold sub-space: the word does not occur in another open document
@@ -416,6 +417,7 @@ fn exec_batch(w: &mut World, batch: &[Op], salt: u64, ctx: &mut CaseCtx) -> Resu
                     }
                 }
                 ctx.class("user_dictionary_file_edited");
+                note_dictionary_change(w);
             }
             Op::ConfigAfterPull { idx, doc } => {
                 note_config_change(w, *idx as usize % CONFIGS.len());
@@ -657,6 +659,18 @@ fn check_publications(w: &mut World, uris: &[String]) -> Result<Result<(), Strin
 /// neighbourhood of lints: a lint ignored before it may legitimately count as another lint
 /// afterwards (C14 defines the identity by the surrounding tokens), so from then on the ignored
 /// lints are only bounded, as after a text change.
+/// The ignore list identifies a lint by the tokens around it *including their dictionary
+/// metadata* (a word the dictionary knows is another token kind than an unknown word). When the
+/// dictionary changes, an ignored lint may therefore count as another lint; from then on the
+/// ignored lints are only bounded, as after a text change.
+fn note_dictionary_change(w: &mut World) {
+    for d in w.docs.iter_mut() {
+        if !d.ignored.is_empty() {
+            d.text_changed_since_ignore = true;
+        }
+    }
+}
+
 fn note_config_change(w: &mut World, new_idx: usize) {
     let parses_differently = |i: usize| CONFIGS[i].contains("isolateEnglish");
     if parses_differently(w.config_idx) != parses_differently(new_idx) {
